@@ -6,6 +6,7 @@ import (
 	"strings"
 
 	pipeline "github.com/buildkite/go-pipeline"
+	"github.com/buildkite/go-pipeline/ordered"
 	"github.com/buildkite/go-pipeline/warning"
 )
 
@@ -159,6 +160,47 @@ func runC15(args []string) {
 		}
 		src := string(asciiJSON(doc))
 		ev := obj{"c": c, "nest": nest, "top": top, "npre": npre}
+		// every fifth map-shaped row is not parsed from text but handed to the step decoder as an ordered map that has
+		// been EDITED through its API: a key of the command family was set first and deleted again. What decides
+		// is what the map holds, not what its storage remembers.
+		edited := idx%5 == 0 && nest == 0 && npre == 0 && c["form"] != "scalar"
+		if sm, ok := step.(orderedJSON); ok && edited {
+			for _, p := range sm {
+				if p[0] == "command" || p[0] == "commands" || p[0] == "plugins" {
+					edited = false
+				}
+			}
+			if edited {
+				ev["edited"] = true
+				pe, msg := guarded(func() {
+					m := ordered.NewMap[string, any](0)
+					m.Set("commands", []any{"gone"})
+					m.Set("plugins", []any{})
+					for _, p := range sm {
+						m.Set(p[0].(string), genericFromDoc(p[1]))
+					}
+					m.Delete("commands")
+					m.Delete("plugins")
+					var steps pipeline.Steps
+					err := ordered.Unmarshal([]any{m}, &steps)
+					ev["warn"], ev["hard"], ev["sentinel"] = warning.Is(err), err != nil && !warning.Is(err), sentinelOf(err)
+					ev["nsteps"], ev["kind"] = len(steps), "none"
+					if err != nil {
+						ev["err"] = err.Error()
+					}
+					if len(steps) > 0 {
+						ev["kind"] = stepKind(steps[0])
+					}
+				})
+				ev["panic"] = pe
+				if pe {
+					ev["panicmsg"] = msg
+					ev["warn"], ev["hard"], ev["sentinel"], ev["nsteps"], ev["kind"] = false, false, "none", 0, "none"
+				}
+				tw.emit(ev)
+				return
+			}
+		}
 		p, msg := guarded(func() {
 			pl, err := pipeline.Parse(strings.NewReader(src))
 			ev["warn"] = warning.Is(err)
